@@ -98,7 +98,7 @@ def step (σ : DSt) (ts : List String) : DSt × String :=
   | "valid" :: _ :: es => (σ, fB (validEdges (es.map pF)))
   | "centres" :: _ :: es => (σ, fFs (centres (es.map pF)))
   | "poly" :: mbpw :: _ :: rest =>
-    let rec fl : List Float → List (Filter Float)
+    let rec fl : List Float → List (PFilter Float)
       | a :: b :: c :: r => ⟨a, b, c⟩ :: fl r
       | _ => []
     (σ, showSettings (polySettings ceilF infF (fl (rest.map pF)) (pN mbpw)))
